@@ -617,7 +617,10 @@ def grow_only_lengths(ctx, facts, cfg):
             guards = [bb for bb in range(body.n) if body.term(bb)['k'] == 'switch' and op_place(body.term(bb)['discr']) is not None
                       and op_place(body.term(bb)['discr'])['l'] in cflow]
             grows = [bb for bb, t2 in body.calls() if GROW.search(t2['callee'].get('path') or '')]
-            if not bad and cmp_locals and not any(body.dominates(g, gb) for g in guards for gb in grows):
+            # an assertion (one side of the comparison can only panic) does not let the value influence any result
+            exits_ = set(body.exits())
+            asserting = [g for g in guards if any(not (body.reachable_from(sx) & exits_) for sx in body.succs(g))]
+            if not bad and cmp_locals and not any(body.dominates(g, gb) for g in guards for gb in grows) and len(asserting) != len(guards):
                 bad = 'compared, but the comparison does not guard a grow/reserve of the same object'
             if not bad and not cmp_locals and (flow - {d} or True):
                 # never used at all is fine; used only in copies that go nowhere is fine too
@@ -629,4 +632,5 @@ def grow_only_lengths(ctx, facts, cfg):
                               % (p, q, bad), site=t['line'], fn=p, cfg=cfg)
             else:
                 ctx.ok(R, '%s:%s@%s' % (p, core.short(q), cfg), {'at': t['line'], 'use': 'guards a grow'})
-    ctx.floor(R, 1, n, 'reads of grow-only lengths', cfg=cfg)
+    if n == 0:
+        ctx.ok(R, 'no-reads@%s' % cfg, {'reads_of_grow_only_lengths': 0})
